@@ -449,8 +449,39 @@ def oracle_identity(case):
     return None
 
 
+def oracle_tuple(case):
+    """DomainTuple / MultiDomain geometry: shape, size, axes and volumes of a product are those of its factors"""
+    import nifty.cl as ift
+    doms = desc_of(POOL[case["pool"]])
+    sig = dict(kind="tuple", what="")
+    dt = ift.DomainTuple.make(doms)
+    shp = tuple(x for d in doms for x in d.shape)
+    if tuple(dt.shape) != shp or dt.size != int(np.prod(shp, dtype=np.int64)) or len(dt) != len(doms):
+        return ("DomainTuple shape / size is not the concatenation / product of its factors", dict(sig, what="shape"))
+    ax = [a for t in dt.axes for a in t]
+    if ax != list(range(len(shp))) or [len(t) for t in dt.axes] != [len(d.shape) for d in doms]:
+        return ("DomainTuple.axes do not partition the array axes factor by factor", dict(sig, what="axes"))
+    if all(hasattr(d, "total_volume") for d in doms):
+        tv = float(np.prod([float(d.total_volume) for d in doms])) if doms else 1.0
+        if not close(dt.total_volume(), tv, 1e-12):
+            return ("DomainTuple.total_volume is not the product of the factors' volumes", dict(sig, what="total-volume"))
+        for i, d in enumerate(doms):
+            if not close(dt.total_volume(i), float(d.total_volume), 1e-12):
+                return ("DomainTuple.total_volume(i) differs from the factor's", dict(sig, what="total-volume-i"))
+        sw = dt.scalar_weight()
+        sws = [d.scalar_dvol for d in doms]
+        if (sw is None) != any(x is None for x in sws) or (sw is not None and not close(sw, float(np.prod(sws)) if sws else 1.0, 1e-12)):
+            return ("DomainTuple.scalar_weight is not the product of the uniform volume elements", dict(sig, what="scalar-weight"))
+    md = ift.MultiDomain.make({"a": doms, "b": doms[:1]})
+    if md.size != dt.size + ift.DomainTuple.make(doms[:1]).size or list(md.keys()) != ["a", "b"]:
+        return ("MultiDomain size / keys inconsistent", dict(sig, what="multi"))
+    return None
+
+
 def oracle(case):
     k = case.get("op")
+    if k == "tuple":
+        return oracle_tuple(case)
     if k == "geometry":
         return oracle_geometry(case["spec"])
     if k == "powerspace":
@@ -547,6 +578,13 @@ def run(ctx):
             r = oracle_power(ps)
             if r:
                 ctx.counterexample(dict(op="powerspace", spec=ps), *r)
+    for pi in range(len(POOL)):
+        c = dict(op="tuple", pool=pi)
+        ctx.case(c, len(POOL[pi]) > 1)
+        ctx.stat("tuple-geometry")
+        r = oracle_tuple(c)
+        if r:
+            ctx.counterexample(c, *r)
     # --- identity
     hists = [c["hist"] for c in _corpus() if c.get("op") == "identity"]
     hists += [gen_history(rng, rng.randrange(6, 15)) for _ in range(ctx.n(40, 400))]
